@@ -111,7 +111,7 @@ static void run() {
                                g_maxdepth, maxsize);
     vp::stats().exhaustive = true;
     if (a.shard == 0) setup_calls();
-    if (a.shard == 1 % a.nshards) giant_buffers();
+    if (a.shard == 1 % a.nshards && !vp::vg().on) giant_buffers();
     // initial states are dealt round-robin to the shards
     unsigned idx = 0;
     vp::CaseScope scope([] { return serialise(g_case); });
